@@ -426,15 +426,33 @@ impl UniverseNet {
             }
             "qr_clear" | "discard_qr_clear" => resp.header.is_response = false,
             "wrong_opcode" | "discard_opcode" => resp.header.opcode = Opcode::Status,
-            "question_mismatch" | "discard_question" => {
-                if let Some(q) = resp.questions.first_mut() {
-                    if h % 2 == 0 {
+            "question_mismatch" | "discard_question" => match h % 5 {
+                // another name, another type, another class, a second question
+                // after the right one, no question at all
+                0 => {
+                    if let Some(q) = resp.questions.first_mut() {
                         q.name = dn(&child_name("x", &qname));
-                    } else {
+                    }
+                }
+                1 => {
+                    if let Some(q) = resp.questions.first_mut() {
                         q.qtype = QueryType::Record(RecordType::HINFO);
                     }
                 }
-            }
+                2 => {
+                    if let Some(q) = resp.questions.first_mut() {
+                        q.qclass = QueryClass::Record(RecordClass::from(3));
+                    }
+                }
+                3 => {
+                    if let Some(q) = resp.questions.first().cloned() {
+                        let mut extra = q;
+                        extra.name = dn(&child_name("second", &qname));
+                        resp.questions.push(extra);
+                    }
+                }
+                _ => resp.questions.clear(),
+            },
             "tc" | "discard_tc" => resp.header.is_truncated = true,
             "rcode_servfail" => resp.header.rcode = Rcode::ServerFailure,
             "rcode_formerr" => resp.header.rcode = Rcode::FormatError,
@@ -700,9 +718,11 @@ impl UniverseNet {
                     .collect();
                 if let Some(target) = legit.first() {
                     let h = world::with(|w| w.derived("upstream.poison_owner_class", &qname));
-                    let owner = match h % 4 {
+                    let owner = match h % 5 {
                         0 => victim.clone(),
                         1 => child_name("sibling", &parent(&qname).unwrap_or_else(|| ".".into())),
+                        // beneath the question name: not an ancestor either
+                        4 => child_name("below", &qname),
                         k => {
                             let want = if k == 2 {
                                 current_depth.max(1)
@@ -722,7 +742,7 @@ impl UniverseNet {
                         matches!(r.rtype_with_data, RecordTypeWithData::NS { .. }) && r.name == ns.name
                     });
                     if !own_owner {
-                        if (h / 4) % 2 == 0 {
+                        if (h / 5) % 2 == 0 {
                             resp.authority.push(ns);
                         } else {
                             resp.answers.push(ns);
